@@ -4,6 +4,7 @@ import (
 	"bytes"
 	"context"
 	"fmt"
+	"sync/atomic"
 	"testing"
 
 	"pgregory.net/rapid"
@@ -34,7 +35,7 @@ func execIDReuse(t *testing.T, c IDReuse) (v Verdict) {
 	var cRep, dRep []byte
 	var cErr, dErr error
 	cDone, dDone := false, false
-	bErrs := 0
+	var bErrs atomic.Int32 // incremented by NB goroutines at once
 	res := kit.Bubble(t, func() {
 		svc := kit.NewSvc()
 		sched := kit.NewSched()
@@ -94,7 +95,7 @@ func execIDReuse(t *testing.T, c IDReuse) (v Verdict) {
 		for i := 0; i < c.NB; i++ {
 			go func() {
 				if _, err := call(bctx, c.BKind, "b", []byte("B")); err != nil {
-					bErrs++
+					bErrs.Add(1)
 				}
 				bdone <- struct{}{}
 			}()
@@ -125,8 +126,8 @@ func execIDReuse(t *testing.T, c IDReuse) (v Verdict) {
 	if res.Panic != nil {
 		v.failf("panic: %v\n%s", res.Panic, res.Stack)
 	}
-	if bErrs != c.NB {
-		v.failf("harness: %d of %d parked calls failed", bErrs, c.NB)
+	if int(bErrs.Load()) != c.NB {
+		v.failf("harness: %d of %d parked calls failed", bErrs.Load(), c.NB)
 	}
 	if !dDone {
 		v.failf("call D, started after another call's write had failed, never returned")
